@@ -5,12 +5,19 @@ for l in subprocess.run(["git", "-C", "/repo", "log", "--format=%h %s", "f2dae16
         FIX_COMMITS.append(l)
 
 claim("C06",
-      "Lean theorem C06.predicate: the mirrored should_emit_entry equals the documented predicate for every four lists and every option map "
-      "(plus call-site and no-trace theorems in Props/C06.lean). Tie to the code: byte-equal outputs of model and implementation on the exhaustive "
-      "truth-table lattice over all six entry kinds and on random documents; the predicate is also monitored on the implementation alone: its outputs "
-      "for a document must equal (up to blank lines) those for the document with every excluded entry deleted and every included entry made "
-      "unconditional (pruning computed by the Lean spec), and an unmentioned option must change nothing.",
-      "Lean 4 proof of the predicate + differential correspondence + metamorphic pruning monitor", "DESIGN.md §8 C06")
+      "Lean theorems: C06.predicate (the mirrored should_emit_entry equals the documented predicate for every four lists and option map); "
+      "no_trace / no_trace_partial (Props/C06Trace.lean): the script generated from the document with every excluded entry deleted - excluded "
+      "segments, file entries at every nesting depth, gp_info, symbol assignments, required symbols, asserts - equals, up to empty lines, the "
+      "script generated from the document, in ordinary (multi-segment) and partial mode, errors included, and with it the header and the "
+      "dependency file (same_header_and_deps); the proof needs that more fuel never changes a result of the emitter (emitEntry_fuel_succ) and "
+      "that the real bound always suffices (C19); unmentioned_options_change_nothing: two option maps that agree on every key named by a "
+      "condition list or a {key} marker of the document generate identical outputs in both modes. Single-segment mode is outside no_trace (the "
+      "sole segment's condition is not evaluated there). Tie to the code: byte-equal outputs of model and implementation on the exhaustive "
+      "truth-table lattice over all six entry kinds and on random documents; the property is also monitored on the implementation alone: its "
+      "outputs for a document must equal (up to blank lines) those for the document with every excluded entry deleted and every included entry "
+      "made unconditional (pruning computed by the Lean spec), and an unmentioned option must change nothing.",
+      "Lean 4 proofs of the predicate, of no-trace (deletion) and of unmentioned options + differential correspondence + metamorphic pruning monitor",
+      "DESIGN.md §8 C06")
 claim("C12",
       "Lean theorems (Props/C12.lean): the dependency text of the ordinary, main-partial and per-segment partial writers is depsText of the expanded "
       "target and the duplicate-free list of exactly the paths of the script's input statements; shape of the text. Tie to the code: byte-equal outputs on "
@@ -32,7 +39,9 @@ claim("C13",
       "recorded list is duplicate-free and a name is in it iff the script holds an unconditional plain assignment written as a linker symbol "
       "(so every declared name is defined); user assignments, ENTRY/EXTERN/ASSERT, _gp and __romPos are never recorded. Tie to the code: byte-equal "
       "outputs on random documents and the Lean predicate C13.holds on the implementation's own header versus its own script (declared names = "
-      "symbols generated inside SECTIONS, type and [] suffix as configured, include guard intact).",
+      "symbols generated inside SECTIONS, type and [] suffix as configured, include guard intact). Image theorem image_declared_are_defined "
+      "(over the Lean linker semantics): every declared name is in the symbol table of the image - an assignment in front of /DISCARD/ always "
+      "defines its symbol and nothing removes one.",
       "Lean 4 proof over the writer model + differential correspondence + predicate on implementation outputs", "DESIGN.md §8 C13")
 claim("C14",
       "Lean theorem C14.passes_refine / parse_eq_specParse (Props/C14.lean, by mutual structural induction on the nested entry type): parsing with the "
